@@ -12,7 +12,11 @@ META = {
             "environment restricted to legal sub-channel behaviour; TLC checks ReadyMeansReady, OthersShutdown, Order (connection "
             "requests of a pass strictly follow the processed list), StickyTF, AllFailed and that the processed list is Interleave(DeDup) "
             "for all input sequences up to 6 events (thorough: 8, 4 addresses of 3 families, health listener on and off) (negative controls: the code's forwarding of CONNECTING from a new sub-connection "
-            "while in sticky TF, and a missing shutdown of the other sub-connections on READY). The reference pre-processing is checked "
+            "while in sticky TF, a missing shutdown of the other sub-connections on READY, and a cancelled timer callback that still acts). The inputs "
+            "include address variants that are not part of an address's identity (BalancerAttributes, Metadata; an address differing in "
+            "Attributes is a different address) and the interleaving \"timer callback already waiting for the mutex when the READY update that "
+            "cancels it is processed\" (reproduced in-package by queueing both on the policy's mutex; the order is verified by sequence "
+            "numbers), after which no sub-connection may be created or connected. The reference pre-processing is checked "
             "against the declarative statement (permutation of the de-duplicated input preserving per-family order) on all lists of <= 4 "
             "addresses. Every transition of a bounded scope and seeded random long input sequences (resolver updates with duplicates and "
             "3 families as Addresses or Endpoints, empty lists, resolver errors, ExitIdle by call or by idle picker, timer expiry through "
@@ -34,11 +38,13 @@ def step_of(state_text, label):
     args = [a.strip().strip('"') for a in args.split(",")] if args else []
     name = name[:-1] if name.endswith("T") else name
     if name == "Update":
-        return {"a": "upd", "li": int(args[0]), "h": args[1] == "TRUE"}
+        return {"a": "upd", "li": int(args[0]), "h": args[1] == "TRUE", "vv": int(args[2])}
     if name == "ResolverError":
         return {"a": "reserr"}
     if name == "ExitIdle":
         return {"a": "exitidle", "via": "call"}
+    if name == "StaleTimer":
+        return {"a": "stale"}
     if name == "Timer":
         return {"a": "timer"}
     if name == "ScState":
@@ -86,6 +92,7 @@ def run(ctx):
         ctx.mc("PickFirstMC", "PickFirstMCH.cfg", workers=8)
     ctx.neg("PickFirstMC", "PickFirstNeg.cfg", expect="I_StickyTF", workers=2)
     ctx.neg("PickFirstMC", "PickFirstNeg2.cfg", expect="I_OthersShutdown", workers=2)
+    ctx.neg("PickFirstMC", "PickFirstNeg3.cfg", expect="I_OthersShutdown", workers=2)
     binary = ctx.go_build("balancer/pickfirst", name="c34", only=r"zz_verif_c34_")
     # reference-oracle sub-check of the address pre-processing: every list of <= n addresses
     ppath = os.path.join(ctx.run, "trace-pre.ndjson")
@@ -104,6 +111,7 @@ def run(ctx):
             for st in b:
                 if st["a"] == "upd" and "li" in st:
                     st["l"] = LISTS[lists][st.pop("li") - 1]
+                    st["v"] = [st.pop("vv", 0)] * len(st["l"])
         behs += bs
     bpath = os.path.join(ctx.run, "beh.ndjson")
     tpath = os.path.join(ctx.run, "trace-replay.ndjson")
